@@ -68,7 +68,7 @@ Proof.
     unfold sz, esize. cbn. rewrite upd_other by exact Hn. reflexivity.
   - same_ecore.
   - destruct (venum s e); [|reflexivity]. cbn [fst]. unfold sz, esize. cbn. rewrite upd_other by exact Hn. reflexivity.
-  - destruct (count <? 0); [reflexivity|]. destruct (count =? 0); [reflexivity|]. destruct (gsize <? 0); [reflexivity|]. destruct (gsize =? 0); [reflexivity|].
+  - destruct (count <? 0); [reflexivity|]. destruct (count =? 0); [reflexivity|]. destruct (gsize <? 0); [reflexivity|]. destruct (gsize =? 0); [reflexivity|]. destruct (2 ^ 63 - 65 <? gsize); [reflexivity|].
     cbn [fst]. unfold sz, esize. cbn. rewrite upd_other by exact Hn. reflexivity.
   - destruct (vmsg s m && vsig s x); [|reflexivity]. unfold step_append. destruct (memb x (gnames s m)); [reflexivity|].
     destruct (verify_append (sz s) (rel s) (glsize s m) (glay s m) x); [reflexivity|]. cbn [do_append fst]. same_ecore.
@@ -191,7 +191,7 @@ Proof.
   - exfalso. apply Hy. destruct (size <? 0); [reflexivity|]. destruct (size =? 0); reflexivity.
   - exfalso. apply Hy. reflexivity.
   - exfalso. apply Hy. destruct (venum s e); reflexivity.
-  - exfalso. apply Hy. destruct (count <? 0); [reflexivity|]. destruct (count =? 0); [reflexivity|]. destruct (gsize <? 0); [reflexivity|]. destruct (gsize =? 0); reflexivity.
+  - exfalso. apply Hy. destruct (count <? 0); [reflexivity|]. destruct (count =? 0); [reflexivity|]. destruct (gsize <? 0); [reflexivity|]. destruct (gsize =? 0); [reflexivity|]. destruct (2 ^ 63 - 65 <? gsize); reflexivity.
   - destruct (vmsg s m && vsig s x); [|exfalso; apply Hy; reflexivity]. unfold step_append in Hy. destruct (memb x (gnames s m)); [exfalso; apply Hy; reflexivity|].
     destruct (verify_append (sz s) (rel s) (glsize s m) (glay s m) x); [exfalso; apply Hy; reflexivity|]. cbn [do_append fst] in Hy.
     autorewrite with reg in Hy. cbn in Hy. destruct (Nat.eq_dec y x) as [E|NE]; [exact E|]. exfalso. apply Hy. apply upd_other. exact NE.
